@@ -22,7 +22,12 @@ from typing import Any, Generic
 
 from .base import BaseLintContext, BaseLintRule
 from .constants import Language
-from .linter_utils import ConfigType, has_file_content, load_linter_config
+from .linter_utils import (
+    ConfigType,
+    has_file_content,
+    load_linter_config,
+    matches_ignore_patterns,
+)
 from .types import Violation
 
 
@@ -81,6 +86,12 @@ class PythonOnlyLintRule(BaseLintRule, Generic[ConfigType]):
 
         config = self._get_config(context)
         if not self._is_enabled(config):
+            return []
+        metadata = getattr(context, "metadata", None)
+        project_root = metadata.get("_project_root") if isinstance(metadata, dict) else None
+        if matches_ignore_patterns(
+            context.file_path, getattr(config, "ignore", None), project_root
+        ):
             return []
 
         file_path = str(context.file_path) if context.file_path else "unknown"
